@@ -94,7 +94,6 @@ def mkEnv (osend : Coins) : Env where
 def chain : Chain where
   env := mkEnv
   persisted := persisted
-  hasAccount := fun i => i < 3
 
 def initStorage : Int := 100000
 def initPrice : Int := 100
@@ -118,6 +117,7 @@ def initWorld : World where
   price := initPrice
   defaultDeposit := 600000000
   restricted := false
+  hasAccount := fun i => i < 3
 
 /-! ### script parser (same grammar as the Go and Gno sides) -/
 
